@@ -77,6 +77,13 @@ class Rec:
                 self.a, self.b = a, b
 
         e["Pair"] = Pair
+        # generic helpers of the corpus header, parameters erased
+        e["gfst"] = lambda a, b: a
+        e["gswap"] = lambda t: (t[1], t[0])
+        e["gpick"] = lambda c, a, b: a if c else b
+        e["glen"] = lambda xs: len(xs) + len(xs)
+        e["gsum"] = lambda xs: sum(xs) + len(xs) + len(xs)
+        e["gtwice"] = lambda f1, v: f1(f1(v))
         return e
 
 
